@@ -54,7 +54,7 @@ Definition parse_authority (raw : bytes)
       let '(host, port) :=
         match int10 (last last_token []) with
         | Ok n => (join [COLON] [a; c] ++ [COLON] ++ join [COLON] (removelast last_token), Some n)
-        | Err _ => (raw, None)      (* except ValueError: host, port = raw, None *)
+        | Err _ => (hostport, None)      (* except ValueError: host, port = split_at[-1], None *)
         end in
       do host' <- patch_ipv6 host;
       Ok (user, pass, host', port)
